@@ -78,6 +78,8 @@ def main():
             names.append(args[i]); i += 1
     if not names:
         names = sorted(d for d in os.listdir(SEEDED) if os.path.exists(os.path.join(SEEDED, d, 'patch.diff')))
+        names = [d for d in names if not (os.path.exists(os.path.join(SEEDED, d, 'meta.json')) and
+                                          json.load(open(os.path.join(SEEDED, d, 'meta.json'))).get('superseded'))]
     jobs = max(2, 16 // par)
     todo = []
     for n in names:
@@ -114,6 +116,8 @@ def main():
         q, t = db.get('quick'), db.get('thorough')
 
         def cell(x):
+            if m.get('superseded'):
+                return 'superseded (see meta.json)'
             if not x:
                 return 'not run'
             if x['exit'] == 1:
